@@ -153,6 +153,7 @@ def run(ctx):
     _diyfp_formulas(ctx)
     _diyfp_product(ctx)
     _exponent_text(ctx)
+    _interval_width_after_narrowing(ctx)
     # ------------------------------------------------------------ R18.3
     ps = db.fn("pstrtod")
     n_l = 0
@@ -675,3 +676,60 @@ def _exponent_text(ctx):
         return
     ctx.ob("R18.8", "WriteExponent|decimal-text", not bad, f.loc(), "%d exponents: %s" % (n, "; ".join(bad) if bad else "every one written as its decimal text"))
     ctx.floor("R18.8", "exponents evaluated", n, 600)
+
+
+def _interval_width_after_narrowing(ctx):
+    """R18.9: Grisu2 scales the two rounding boundaries of the double (Wm, Wp), pulls each ONE unit inwards (`Wm.f++;
+    Wp.f--;` - the products are only accurate to one unit) and lets DigitGen generate digits until the remainder is
+    below the width `Wp.f - Wm.f` of that SAFE interval.  Taking the width before the narrowing makes the interval two
+    units too wide: DigitGen then sometimes stops one digit early, on a decimal that lies outside the true rounding
+    interval and reads back as the neighbouring double.  (Seed S9-C18: the width hoisted into a const above the two
+    statements; 4e-4 of random doubles changed value.)"""
+    from . import gates as G
+    db = ctx.db
+    ctx.rule("R18.9", "in Grisu2 the width handed to DigitGen is `Wp.f - Wm.f` evaluated after both `Wm.f++` and `Wp.f--`")
+    fs = [g for g in db.functions if g.name.split("::")[-1] == "Grisu2" and g.file.endswith("pdtoa.cxx")]
+    if not fs:
+        ctx.broken("R18.9: Grisu2 not found")
+        return
+    f = fs[0]
+    calls = [c for c in f.walk() if c.get("k") == "call" and callee_short(c) == "DigitGen" and len(c.get("a", [])) >= 3]
+    if not calls:
+        ctx.broken("R18.9: the DigitGen call of Grisu2 was not found")
+        return
+    c = calls[0]
+    upper = local_ref(c["a"][1])
+    width = strip_casts(peel(c["a"][2]))
+    where = c
+    r = local_ref(width)
+    if r is not None:
+        for y in f.walk():
+            if y.get("k") == "decls":
+                for dd in y["d"]:
+                    if dd.get("d") == r["d"] and dd.get("init") is not None:
+                        width, where = strip_casts(peel(dd["init"])), y
+    hi = lo = None
+    if width is not None and width.get("k") == "bin" and width.get("op") == "-":
+        a, b = strip_casts(peel(width["x"])), strip_casts(peel(width["y"]))
+        if a is not None and b is not None and a.get("k") == "mem" and b.get("k") == "mem" and (a.get("n") or "").endswith("::f") and (b.get("n") or "").endswith("::f"):
+            hi, lo = local_ref(a.get("b")), local_ref(b.get("b"))
+    ok_shape = hi is not None and lo is not None and upper is not None and hi.get("d") == upper.get("d") and lo.get("d") != hi.get("d")
+    ctx.ob("R18.9", "Grisu2|width-is-upper-minus-lower", ok_shape, f.loc(where), "the width is <upper boundary>.f - <lower boundary>.f of the interval handed to DigitGen")
+    if not ok_shape:
+        return
+
+    def step(d, op):
+        return [y for y in f.walk() if y.get("k") == "un" and op in (y.get("op") or "") and (strip_casts(peel(y.get("e"))) or {}).get("k") == "mem" and
+                (strip_casts(peel(y["e"])).get("n") or "").endswith("::f") and (local_ref(strip_casts(peel(y["e"])).get("b")) or {}).get("d") == d] + \
+               [y for y in f.walk() if y.get("k") == "bin" and y.get("op") == (op[0] + "=") and (strip_casts(peel(y.get("x"))) or {}).get("k") == "mem" and
+                (local_ref(strip_casts(peel(y["x"])).get("b")) or {}).get("d") == d and const_int(y.get("y")) == 1]
+    inward_lo, inward_hi = step(lo["d"], "++"), step(hi["d"], "--")
+    first = None
+    for y in f.walk():
+        if f.cfg.locate(y) is not None:
+            first = y
+            break
+    for name, steps in (("lower boundary moved up", inward_lo), ("upper boundary moved down", inward_hi)):
+        ok = bool(steps) and first is not None and not G.reaches_avoiding(f, first, steps, where) and f.cfg.locate(first) != f.cfg.locate(where)
+        ctx.ob("R18.9", "Grisu2|width-after|%s" % name.replace(" ", "-"), ok, f.loc(where),
+               "the width is computed after the %s by one unit" % name if ok else "the width is computed BEFORE the %s: the digit generator's interval is too wide" % name)
